@@ -591,6 +591,72 @@ theorem genMetricLim_refused {nd : Node} (c : Cfg) (inv : MetaInv nd) (nb ns nam
         rw [Option.isNone_iff_eq_none.1 h2.1]
     · rcases href with h | h <;> cases h
 
+/-- the LRU sequence cache may drop any entry at any time: the cover invariant does not need it -/
+theorem coverInv_evictSeq {sh : Shard} (inv : CoverInv sh) (m : Nat) : CoverInv (sh.evictSeq m) := by
+  obtain ⟨a, b, c, d, e, f, g⟩ := inv
+  refine ⟨a, b, c, d, e, f, ?_⟩
+  intro m' c' hc'
+  have hc'' : (if m' = m then none else sh.seqCache m') = some c' := hc'
+  by_cases hm : m' = m
+  · rw [if_pos hm] at hc''; cases hc''
+  · rw [if_neg hm] at hc''; exact g m' c' hc''
+
+/-- the cache entry, while it is there, is the largest posting of its metric: `GenSeriesID` adds the new id to
+the cache and to the mutable postings in one go, postings only move towards the disk, a crash empties the cache -/
+def CacheTight (sh : Shard) : Prop := ∀ m c, sh.seqCache m = some c → (m, c) ∈ sh.minv.all
+
+/-- **eviction does not change the next series id**: with a tight cache entry the
+miss branch (`max(postings) + 1`) computes what the hit branch (`cache + 1`) computes -/
+theorem evictSeq_same_next {sh : Shard} (inv : CoverInv sh) (ht : CacheTight sh) (m : Nat) :
+    (sh.evictSeq m).createSeriesID m = sh.createSeriesID m := by
+  unfold Shard.createSeriesID
+  have he : (sh.evictSeq m).seqCache m = none := by simp [Shard.evictSeq]
+  have hs : (sh.evictSeq m).metricSeries m = sh.metricSeries m := rfl
+  rw [he, hs]
+  cases hc : sh.seqCache m with
+  | none => rfl
+  | some c =>
+    have hmem : c ∈ sh.metricSeries m := by
+      unfold Shard.metricSeries
+      exact List.mem_map.2 ⟨(m, c), List.mem_filter.2 ⟨ht m c hc, by simp⟩, rfl⟩
+    have hle : ∀ i ∈ sh.metricSeries m, i ≤ c := by
+      intro i hi
+      unfold Shard.metricSeries at hi
+      obtain ⟨⟨m', i'⟩, hf, rfl⟩ := List.mem_map.1 hi
+      obtain ⟨hin, hm'⟩ := List.mem_filter.1 hf
+      have : m' = m := by simpa using hm'
+      subst this
+      exact inv.cache _ c hc _ hin
+    have hmax : ∀ (l : List Nat), c ∈ l → (∀ i ∈ l, i ≤ c) → maxList l = c := by
+      intro l
+      induction l with
+      | nil => intro h; cases h
+      | cons a r ih =>
+        intro hin hall
+        have ha : a ≤ c := hall a (List.mem_cons_self ..)
+        have hr : maxList r ≤ c := by
+          clear ih hin
+          induction r with
+          | nil => exact Nat.zero_le _
+          | cons b r' ih' =>
+            have hb : b ≤ c := hall b (List.mem_cons_of_mem _ (List.mem_cons_self ..))
+            have := ih' (fun i hi => by
+              rcases List.mem_cons.1 hi with h | h
+              · exact h ▸ ha
+              · exact hall i (List.mem_cons_of_mem _ (List.mem_cons_of_mem _ h)))
+            show max b (maxList r') ≤ c
+            exact Nat.max_le.2 ⟨hb, this⟩
+        show max a (maxList r) = c
+        rcases List.mem_cons.1 hin with h | h
+        · subst h; exact Nat.max_eq_left hr
+        · have := ih h (fun i hi => hall i (List.mem_cons_of_mem _ hi))
+          rw [this]; exact Nat.max_eq_right ha
+    cases hl : sh.metricSeries m with
+    | nil => rw [hl] at hmem; cases hmem
+    | cons a l =>
+      show maxList (a :: l) + 1 = c + 1
+      rw [← hl, hmax _ hmem hle]
+
 theorem nodeCover_fstep {c : Cfg} (hc : c.seriesLimitFirst = true) (hp : c.prepareSwapsEmpty = true)
     (ha : c.indexFlushAborts = true) {nd : Node} (inv : NodeCover nd) (op : FOp) :
     NodeCover (fstep c [0, 1, 2, 3] nd op) := by
@@ -601,6 +667,7 @@ theorem nodeCover_fstep {c : Cfg} (hc : c.seriesLimitFirst = true) (hp : c.prepa
     rw [ha]
     exact nodeCover_setShard inv sh (coverInv_flushFault (inv sh) k)
   | metricLim nb ns name => exact nodeCover_of_shards (genMetricLim_shards c nd nb ns name) inv
+  | evictSeq sh m => exact nodeCover_setShard inv sh (coverInv_evictSeq (inv sh) m)
 
 theorem nodeCover_frun {c : Cfg} (hc : c.seriesLimitFirst = true) (hp : c.prepareSwapsEmpty = true)
     (ha : c.indexFlushAborts = true) (ops : List FOp) : ∀ {nd : Node}, NodeCover nd → NodeCover (frun c [0, 1, 2, 3] nd ops) := by
@@ -610,5 +677,184 @@ theorem nodeCover_frun {c : Cfg} (hc : c.seriesLimitFirst = true) (hp : c.prepar
 
 theorem nodeCover_init (lim : Limits) (n : Nat) : NodeCover { lim := lim, nShards := n } :=
   fun _ => coverInv_init
+
+/-! ### the cache entry is one of the metric's postings, after every history -/
+
+def NodeTight (nd : Node) : Prop := ∀ k, CacheTight (nd.shards k)
+
+theorem tight_congr {s s' : Shard} (h2 : s'.seqCache = s.seqCache) (h3 : ∀ a, a ∈ s.minv.all → a ∈ s'.minv.all)
+    (ht : CacheTight s) : CacheTight s' := by
+  intro m c hc
+  rw [h2] at hc
+  exact h3 _ (ht m c hc)
+
+theorem Layers.all_dropEmpty {α : Type} (l : Layers α) (a : α) : a ∈ l.dropEmpty.all ↔ a ∈ l.all := by
+  obtain ⟨cur, frz, disk⟩ := l
+  cases frz with
+  | none => exact Iff.rfl
+  | some f =>
+    cases f with
+    | nil => simp [Layers.dropEmpty, Layers.all]
+    | cons b r => exact Iff.rfl
+
+theorem Layers.all_prepareFlush {α : Type} (l : Layers α) (a : α) : a ∈ l.prepareFlush.all ↔ a ∈ l.all := by
+  obtain ⟨cur, frz, disk⟩ := l
+  cases frz with
+  | none => simp [Layers.prepareFlush, Layers.all]
+  | some f => exact Iff.rfl
+
+theorem Layers.all_flush {α : Type} (l : Layers α) (a : α) : a ∈ l.flush.all ↔ a ∈ l.all := by
+  obtain ⟨cur, frz, disk⟩ := l
+  cases frz with
+  | none => exact Iff.rfl
+  | some f =>
+    cases f with
+    | nil => exact Iff.rfl
+    | cons b r => simp [Layers.flush, Layers.all, or_assoc]
+
+theorem tight_init : CacheTight {} := by
+  intro m c hc; cases hc
+
+theorem tight_prepare {sh : Shard} (ht : CacheTight sh) : CacheTight (sh.prepareFlushE true) := by
+  have e : sh.prepareFlushE true =
+      { sh with minv := sh.minv.dropEmpty.prepareFlush, fwd := sh.fwd.dropEmpty.prepareFlush,
+                inv := sh.inv.dropEmpty.prepareFlush, series := sh.series.dropEmpty.prepareFlush } := rfl
+  rw [e]
+  refine tight_congr (s := sh) rfl ?_ ht
+  intro a ha
+  exact (Layers.all_prepareFlush _ a).2 ((Layers.all_dropEmpty _ a).2 ha)
+
+theorem tight_flushStep {sh : Shard} (ht : CacheTight sh) (k : Nat) : CacheTight (sh.flushStep k) := by
+  match k with
+  | 0 => exact tight_congr (s := sh) rfl (fun a ha => (Layers.all_flush _ a).2 ha) ht
+  | 1 => exact tight_congr (s := sh) rfl (fun _ ha => ha) ht
+  | 2 => exact tight_congr (s := sh) rfl (fun _ ha => ha) ht
+  | 3 => exact tight_congr (s := sh) rfl (fun _ ha => ha) ht
+  | _ + 4 => exact ht
+
+theorem tight_prefix {sh : Shard} (ht : CacheTight sh) (j : Nat) : CacheTight ((List.range j).foldl Shard.flushStep sh) := by
+  have t0 := tight_flushStep ht 0
+  have t1 := tight_flushStep t0 1
+  have t2 := tight_flushStep t1 2
+  have t3 := tight_flushStep t2 3
+  rcases flushPrefix_cases sh j with h | h | h | h | h <;> rw [h]
+  · exact ht
+  · exact t0
+  · exact t1
+  · exact t2
+  · exact t3
+
+theorem tight_flushFault {sh : Shard} (ht : CacheTight sh) (k : Nat) :
+    CacheTight (Node.flushFaultGo true k [0, 1, 2, 3] sh).1 := by
+  obtain ⟨j, _, e, _⟩ := flushFault_abort_is_prefix sh k
+  rw [e]; exact tight_prefix ht j
+
+theorem tight_recover (sh : Shard) : CacheTight sh.recover := by
+  intro m c hc; cases hc
+
+theorem tight_evictSeq {sh : Shard} (ht : CacheTight sh) (m : Nat) : CacheTight (sh.evictSeq m) := by
+  intro m' c' hc'
+  have hc'' : (if m' = m then none else sh.seqCache m') = some c' := hc'
+  by_cases hm : m' = m
+  · rw [if_pos hm] at hc''; cases hc''
+  · rw [if_neg hm] at hc''; exact ht m' c' hc''
+
+theorem tight_created {sh : Shard} (ht : CacheTight sh) (m ts : Nat) :
+    CacheTight { sh with series := sh.series.insert m ts (sh.createSeriesID m),
+                         seqCache := fun j => if j = m then some (sh.createSeriesID m) else sh.seqCache j,
+                         minv := sh.minv.put (m, sh.createSeriesID m) } := by
+  have hall : ∀ a, a ∈ (sh.minv.put (m, sh.createSeriesID m)).all ↔ a = (m, sh.createSeriesID m) ∨ a ∈ sh.minv.all := by
+    intro a; simp [Layers.all, Layers.put]
+  intro m' c hc
+  have hc' : (if m' = m then some (sh.createSeriesID m) else sh.seqCache m') = some c := hc
+  by_cases hm : m' = m
+  · subst hm
+    rw [if_pos rfl] at hc'; cases hc'
+    exact (hall _).2 (Or.inl rfl)
+  · rw [if_neg hm] at hc'
+    exact (hall _).2 (Or.inr (ht m' c hc'))
+
+theorem nodeTight_of_shards {nd nd' : Node} (h : nd'.shards = nd.shards) (inv : NodeTight nd) : NodeTight nd' :=
+  fun k => by rw [h]; exact inv k
+
+theorem nodeTight_setShard {nd : Node} (inv : NodeTight nd) (shard : Nat) {sh : Shard} (h : CacheTight sh) :
+    NodeTight (nd.setShard shard sh) := by
+  intro k
+  unfold Node.setShard
+  by_cases hk : k = shard
+  · simp [hk]; exact h
+  · simp [hk]; exact inv k
+
+theorem nodeTight_genSeries {c : Cfg} (hc : c.seriesLimitFirst = true) {nd : Node} (inv : NodeTight nd)
+    (shard m ts : Nat) (tags : List (Nat × Nat)) : NodeTight (nd.genSeries c shard m ts tags).1 := by
+  unfold Node.genSeries
+  simp only []
+  cases hl : (nd.shards shard).series.lookup m ts with
+  | some i => exact inv
+  | none =>
+    simp only []
+    by_cases over : nd.lim.maxSeries > 0 ∧ nd.lim.maxSeries < (nd.shards shard).createSeriesID m
+    · rw [if_pos ⟨hc, over⟩]
+      apply nodeTight_setShard inv
+      exact tight_congr (s := nd.shards shard) rfl (fun _ ha => ha) (inv shard)
+    · rw [if_neg (fun h => over h.2), if_neg over]
+      intro k
+      obtain ⟨_, e2, e3⟩ := buildInverted_shards c shard m ((nd.shards shard).createSeriesID m) tags
+        (nd.setShard shard { nd.shards shard with
+            series := (nd.shards shard).series.insert m ts ((nd.shards shard).createSeriesID m),
+            seqCache := fun j => if j = m then some ((nd.shards shard).createSeriesID m) else (nd.shards shard).seqCache j,
+            minv := (nd.shards shard).minv.put (m, (nd.shards shard).createSeriesID m) }) k
+      exact tight_congr e2 (fun a ha => by rw [e3]; exact ha) (nodeTight_setShard inv shard (tight_created (inv shard) m ts) k)
+
+theorem nodeTight_recover (nd : Node) : NodeTight nd.recover :=
+  fun k => tight_recover (nd.shards k)
+
+theorem nodeTight_step {c : Cfg} (hc : c.seriesLimitFirst = true) (hp : c.prepareSwapsEmpty = true)
+    {nd : Node} (inv : NodeTight nd) (op : Op) : NodeTight (step c nd op).1 := by
+  cases op with
+  | metric nb ns name => exact nodeTight_of_shards (genMetric_shards c nd nb ns name) inv
+  | field m f => exact nodeTight_of_shards (genFieldID_shards c nd m f) inv
+  | tagKey m k => exact nodeTight_of_shards (genTagKeyID_shards c nd m k) inv
+  | tagValue tk v => exact nodeTight_of_shards (genTagValueID_shards c nd tk v) inv
+  | series sh m ts tags => exact nodeTight_genSeries hc inv sh m ts tags
+  | metaPrepare => exact nodeTight_of_shards (metaPrepareE_shards nd _) inv
+  | metaFlush => exact nodeTight_of_shards (metaFlushPrefix_shards' nd 5) inv
+  | indexPrepare sh =>
+    show NodeTight (nd.indexPrepareE sh c.prepareSwapsEmpty)
+    rw [hp]
+    intro k
+    by_cases hk : k = sh
+    · have e : (nd.indexPrepareE sh true).shards k = (nd.shards sh).prepareFlushE true := by
+        simp [Node.indexPrepareE, Node.indexDropEmpty, Node.indexPrepare, Node.setShard, hk, Shard.prepareFlushE]
+      rw [e]; exact tight_prepare (inv sh)
+    · have e : (nd.indexPrepareE sh true).shards k = nd.shards k := by
+        simp [Node.indexPrepareE, Node.indexDropEmpty, Node.indexPrepare, Node.setShard, hk]
+      rw [e]; exact inv k
+  | indexFlush sh => exact nodeTight_setShard inv sh (tight_prefix (inv sh) 4)
+  | reopen => exact nodeTight_recover _
+  | metaFlushCrash k => exact nodeTight_recover _
+  | indexFlushCrash sh k => exact nodeTight_recover _
+  | metaFlushFail k => exact nodeTight_of_shards (metaFlushPrefix_shards' nd k) inv
+
+theorem nodeTight_fstep {c : Cfg} (hc : c.seriesLimitFirst = true) (hp : c.prepareSwapsEmpty = true)
+    (ha : c.indexFlushAborts = true) {nd : Node} (inv : NodeTight nd) (op : FOp) :
+    NodeTight (fstep c [0, 1, 2, 3] nd op) := by
+  cases op with
+  | op o => exact nodeTight_step hc hp inv o
+  | indexFlushFault sh k =>
+    show NodeTight (nd.setShard sh (Node.flushFaultGo c.indexFlushAborts k [0, 1, 2, 3] (nd.shards sh)).1)
+    rw [ha]
+    exact nodeTight_setShard inv sh (tight_flushFault (inv sh) k)
+  | metricLim nb ns name => exact nodeTight_of_shards (genMetricLim_shards c nd nb ns name) inv
+  | evictSeq sh m => exact nodeTight_setShard inv sh (tight_evictSeq (inv sh) m)
+
+theorem nodeTight_frun {c : Cfg} (hc : c.seriesLimitFirst = true) (hp : c.prepareSwapsEmpty = true)
+    (ha : c.indexFlushAborts = true) (ops : List FOp) : ∀ {nd : Node}, NodeTight nd → NodeTight (frun c [0, 1, 2, 3] nd ops) := by
+  induction ops with
+  | nil => intro nd inv; exact inv
+  | cons op rest ih => intro nd inv; exact ih (nodeTight_fstep hc hp ha inv op)
+
+theorem nodeTight_init (lim : Limits) (n : Nat) : NodeTight { lim := lim, nShards := n } :=
+  fun _ => tight_init
 
 end LinVerif.IdAssign
